@@ -341,6 +341,23 @@ def threaded_case(ctx, files, table, spec, evs_with_args, bits, decisions):
     r, why = exec_threaded(files, table, spec, evs_with_args, bits, decisions)
     if r is None:
         return why, None
+    if ctx.km is not None:
+        # schedule replay: the same sequence of atomic operations run by the extracted LTS (Model/CsThreads.v) must leave the
+        # same callbacks and the same number of queued events
+        ops = [w for _t, w in r["schedule"]]
+        known = {"ConcurrentQueue.Enqueue": "1", "ConcurrentQueue.TryDequeue": "0", "Thread.Sleep": "0", "start": None, "Thread.Start": None}
+        if all(w in known for w in ops):
+            msched = [known[w] for w in ops if known[w] is not None]
+            m = ctx.km.call("cs_threaded", table, evs, smlib.bits_arg(bits), msched)
+            mtrace = [{"guard": nm, "action": nm, "exit": "On%sExit" % nm, "entry": "On%sEntry" % nm}[k]
+                      for cbs, _s in smlib.km_steps(m[0]) for k, nm, _e in cbs]
+            if mtrace != r["trace"] or int(m[1]) != r["queued"]:
+                ctx.tie_broken("schedule replay: real threaded run vs CsThreads.trun on the same operation sequence",
+                               {"table": table, "events": evs, "bits": bits, "schedule": r["schedule"], "real": r["trace"], "model": mtrace,
+                                "queued_real": r["queued"], "queued_model": int(m[1])})
+            ctx.count("threaded_schedule_replays")
+        else:
+            ctx.count("threaded_runs_with_operations_outside_the_LTS")
     sched = [t for t, _w in r["schedule"]]
     if not r["producer_done"]:
         return "the producer could not finish its Trigger calls (blocked) under the schedule", r["schedule"]
@@ -527,6 +544,18 @@ def run(ctx):
             decs1 = [bad["decisions"]] if (key == "cs-threaded-behaviour" and bad) else decs
             small = smlib.shrink_rows(table, lambda t: one_case(ctx, t, spec, bits, [ev for ev in evs if ev[0] in smlib.names(t)[1] + [nm for nm, _m in spec["structs"]]], decs1)[0] is not None)
             evs = [ev for ev in evs if ev[0] in smlib.names(small)[1] + [nm for nm, _m in spec["structs"]]]
+            if key in ("cs-threaded-behaviour", "cs-executed-behaviour"):     # shorten the event sequence too
+                changed = True
+                while changed and len(evs) > 1:
+                    changed = False
+                    for j in range(len(evs)):
+                        cand = evs[:j] + evs[j + 1:]
+                        try:
+                            if one_case(ctx, small, spec, bits, cand, decs1)[1] == key:
+                                evs, changed = cand, True
+                                break
+                        except Exception:  # noqa
+                            pass
             fail2, _k = one_case(ctx, small, spec, bits, evs, decs1)
             rec = {"table": small, "iface": spec, "bits": bits, "events": evs, "finding_key": key, "original_table": table}
             if key == "cs-threaded-behaviour" and LAST_SCHEDULE[0]:
